@@ -40,6 +40,7 @@ fn main() {
             c.pinned = flag(&args, "--pinned");
             c.only = arg(&args, "--only");
             c.targets = arg(&args, "--targets").map(|s| s.split(',').map(|x| x.to_string()).collect());
+            c.gens = arg(&args, "--gens").map(|s| s.split(',').map(|x| x.to_string()).collect());
             c.from_seq = arg(&args, "--from-seq").and_then(|s| s.parse().ok()).unwrap_or(0);
             c.verbose = flag(&args, "--verbose");
             c.variant = arg(&args, "--variant").unwrap_or_else(|| "fast".into());
@@ -51,7 +52,8 @@ fn main() {
             }
             ctx::install_panic_hook();
             ctx::set_verbose_panics(c.verbose);
-            if !cfg!(miri) { ctx::start_watchdog(out_path.clone()); }
+            if cfg!(miri) { c.set_case_wall_limit_ms(150_000); }
+            ctx::start_watchdog(out_path.clone());
             if !props::run(&prop, &mut c) { eprintln!("unknown property {prop}"); std::process::exit(2); }
             c.finish();
             // library code may have spawned threads / runtimes; do not wait for them
